@@ -110,6 +110,9 @@ def impl_apply(tree, rn, i):
         if tags[id(copy_node)] != i + 1:
             out["clone_pos"] = tags[id(copy_node)]
         copy_snap = core.snapshot(copy_root) if rn == "bm" else None
+        slot_parent = copy_node.parent
+        if rn == "as" and slot_parent is not None:
+            slot_parent = slot_parent.parent      # a rotation: the node takes the place of its PARENT
         change = rule.apply_to(copy_node)
         res = change.result
         if copy_snap is not None and core.snapshot(copy_root) != copy_snap:
@@ -120,6 +123,15 @@ def impl_apply(tree, rn, i):
             return out
         rroot = res.get_root()
         out["audit"] = core.audit_links(rroot)
+        # the node the rule hands back takes the place of the rewritten node: its parent is the parent the
+        # rewritten node had (none at the root) and that parent points at it; the rewritten node is gone
+        # (balanced move returns a node of a NEW tree it built from the root down)
+        if rn != "bm" and not out["audit"]:
+            if res.parent is not slot_parent:
+                out["audit"] = [("result-parent", "change.result.parent is not the parent of the rewritten node"
+                                 + (" (the rewrite was at the root: the result must be a root)" if slot_parent is None else ""))]
+            elif slot_parent is not None and slot_parent.left is not res and slot_parent.right is not res:
+                out["audit"] = [("result-parent", "the parent of the rewritten node does not point at change.result")]
         if not out["audit"]:
             st = core.eval_stale(rroot)
             if st is not None:
